@@ -15,7 +15,7 @@ from pyworkers._remote_pickle.state import RemoteState
 from . import pk
 from .c13 import _c, _attempt
 from .c14 import build_classes, build_graph, _FUNCS
-from ..rt import Outcome, ev
+from ..rt import Outcome, ev, notrace, sym_same, is_sym
 from ..xh import Harness
 from ..main import PropSpec
 
@@ -106,9 +106,15 @@ def _attrs_of(o):
 
 
 def h_patch(n, p2, h1, h2, top, share, ss, marker, tkind, ckind, v1, v2, v3):
+    # v1..v3 stay symbolic: pyworkers only moves them between dicts; every comparison is made by sym_same()
+    with notrace():
+        return _h_patch0(n, p2, h1, h2, top, share, ss, marker, tkind, ckind, v1, v2, v3)
+
+
+def _h_patch0(n, p2, h1, h2, top, share, ss, marker, tkind, ckind, v1, v2, v3):
     snap = pk.snapshot()
     try:
-        n = 1 + _c(n - 1, 3)
+        n = max(1, _c(n, 4))
         p2 = _c(p2, 2)
         hs = [0, _c(h1, 5), _c(h2, 5), 0]
         top, share, ss, marker = _c(top, 4), _c(share, 3), _c(ss, 2), _c(marker, 2)
@@ -187,7 +193,7 @@ def _eq(a, b):
         return all(_eq(a[k], b[k]) for k in b)
     if isinstance(a, (dict, list, tuple)) or type(a).__module__ == "vf_dyn_classes":
         return False
-    return a == b
+    return sym_same(a, b)
 
 
 def _shallow_same(a, b):
@@ -195,13 +201,13 @@ def _shallow_same(a, b):
     ta, tb = type(a), type(b)
     if ta.__module__ == "vf_dyn_classes" or tb.__module__ == "vf_dyn_classes":
         return ta is tb and getattr(a, "tag", None) == getattr(b, "tag", None)
-    if ta is not tb:
+    if ta is not tb and not (is_sym(a) or is_sym(b)):
         return False
     if ta in (list, tuple):
         return len(a) == len(b) and all(_shallow_same(x, y) for x, y in zip(a, b))
     if ta is dict:
         return list(a) == list(b) and all(_shallow_same(a[k], b[k]) for k in a)
-    return a == b
+    return sym_same(a, b)
 
 
 # ---------------------------------------------------------------------------------------------
@@ -211,11 +217,16 @@ class _Boom(Exception):
 
 def h_history(fail, n, h1, top, ss, marker, tkind, ckind, v1, v2, v3):
     """loads #1 fails part-way (or succeeds), then loads #2 must behave as on a fresh thread."""
+    with notrace():
+        return _h_history(fail, n, h1, top, ss, marker, tkind, ckind, v1, v2, v3)
+
+
+def _h_history(fail, n, h1, top, ss, marker, tkind, ckind, v1, v2, v3):
     snap = pk.snapshot()
     saved_local = RemoteState._active_contexts
     try:
         fail = _c(fail, 5)
-        n = 1 + _c(n - 1, 3)
+        n = max(1, _c(n, 4))
         hs = [0, _c(h1, 5), 0, 0]
         top, ss, marker = _c(top, 4), _c(ss, 2), _c(marker, 2)
         tkind, ckind = _c(tkind, 4), _c(ckind, 5)
@@ -268,7 +279,7 @@ def h_history(fail, n, h1, top, ss, marker, tkind, ckind, v1, v2, v3):
 def _canon_eq(a, b):
     if type(a) is tuple and type(b) is tuple:
         return len(a) == len(b) and all(_canon_eq(x, y) for x, y in zip(a, b))
-    return a == b
+    return sym_same(a, b)
 
 
 _pparams = OrderedDict([("n", (1, 3)), ("p2", (0, 1)), ("h1", (0, 4)), ("h2", (0, 4)), ("top", (0, 3)), ("share", (0, 2)),
